@@ -215,3 +215,37 @@ def replay(doc):
         if v["sig"] == doc.get("sig"):
             return {"sig": v["sig"], "msg": v["example"]["msg"]}
     return None
+
+
+def adapted_lane(res):
+    """C08 uses the same child for `to_adapted_string`: whatever choice the detection makes for a stream, the helper must
+    render like AutoStream::new(Vec, that choice): stripped for Never, unchanged otherwise (metamorphic: the observed
+    choice is the input of the oracle, not the decision table)."""
+    td = common.cargo_build(["vh-env"], "release")
+    exe = os.path.join(td, "release", "vh-env")
+    work = tempfile.mkdtemp(prefix="vh-c08-", dir=os.path.join(common.harness_dir()))
+    try:
+        env = dict(common.ENV)
+        for k in VARS:
+            env.pop(k, None)
+        log = os.path.join(work, "log.jsonl")
+        p = subprocess.run([exe, log, os.path.join(work, "regular.txt"), "-", "full", str(common.SEED)], env=env, stdin=subprocess.DEVNULL, stdout=subprocess.PIPE, stderr=subprocess.PIPE, timeout=900)
+        if p.returncode != 0:
+            raise Inconclusive("vh-env exited with %d" % p.returncode)
+        n = 0
+        by_choice = {}
+        for line in open(log):
+            ev = json.loads(line)
+            if ev.get("ev") != "env":
+                continue
+            for d in ev["decisions"]:
+                if "adapted" not in d or d["stream"] == "stdout-lock-disagrees":
+                    continue
+                n += 1
+                by_choice[d["choice"]] = by_choice.get(d["choice"], 0) + 1
+                want = "X" if d["choice"] == "Never" else PROBE_TEXT
+                if d["adapted"] != want:
+                    res.violation("c08:to_adapted_string", "global=%s stream=%s: detection chose %s but to_adapted_string rendered %r (expected %r)" % (ev["global"], d["stream"], d["choice"], d["adapted"], want), check="c08", lane="to_adapted_string")
+        res.add_lane("to_adapted_string", "held", {"calls_checked": n, "by_detected_choice": by_choice}, evaluations=n, distinct=len(by_choice))
+    finally:
+        shutil.rmtree(work, ignore_errors=True)
